@@ -206,8 +206,8 @@ func RunCfgs(args []string) int {
 	}
 	// one more session outside the enumerated configurations: keep-alive under constant traffic, flood control on
 	{
-		c := Cfg{Nick: "busy", Ident: "ident", Name: "Real Name", Server: "irc.example.net:6667", PingFreq: 80}
-		r, err := runOne(c, nil, nil, 12*time.Second, true)
+		c := Cfg{Nick: "busy", Ident: "ident", Name: "Real Name", Server: "irc.example.net:6667", PingFreq: 3000}
+		r, err := runOne(c, nil, nil, 9500*time.Millisecond, true)
 		if err != nil {
 			fmt.Println("INCOMPLETE keep-alive under traffic:", err)
 			return 3
@@ -280,12 +280,16 @@ func runOne(c Cfg, cert *tls.Certificate, tokens []string, window time.Duration,
 			if busy {
 				stop := make(chan struct{})
 				go func() {
-					for i := 0; i < 14; i++ {
+					// the server's PING falls into the last third of every keep-alive period
+					period := time.Duration(c.PingFreq) * time.Millisecond
+					next := period * 2 / 3
+					for i := 0; i < 4; i++ {
 						select {
 						case <-stop:
 							return
-						case <-time.After(30 * time.Millisecond):
+						case <-time.After(next):
 							srv.send(fmt.Sprintf("PING :srv-%d", i))
+							next = period
 						}
 					}
 				}()
